@@ -209,8 +209,36 @@ def check(run):
         q = gnupg.parse_pubkey(g.export(fprs[0]))
         if not (g.verify(probe, sigpkt) and crypto.ed25519_ref_verify(q, crypto.gpg_digest(probe, other), sig64)):
             raise MachineryFailure("the GnuPG stand-in does not reproduce a signature GnuPG itself verifies")
+        class Flaky:
+            """The gpg binary seen through a signer that now and then does not answer in time (hardware key waiting for a touch): the first
+            request of a burst raises subprocess.TimeoutExpired, the operator simply runs the command again."""
+
+            def __init__(self, inner):
+                self.inner, self.armed = inner, False
+
+            def create_signature(self, data, keyid):
+                if self.armed:
+                    self.armed = False
+                    import subprocess
+                    raise subprocess.TimeoutExpired(cmd=["gpg", "--detach-sign"], timeout=10)
+                return self.inner.create_signature(data, keyid)
+
+            def __getattr__(self, name):
+                return getattr(self.inner, name)
+        flaky = Flaky(g)
+
+        def again(fn, *a):
+            """run a signing command as an operator would: once more if the signer timed out"""
+            import subprocess
+            flaky.armed = rr.random() < 0.5
+            try:
+                return fn(*a)
+            except subprocess.TimeoutExpired:
+                return fn(*a)
+            finally:
+                flaky.armed = False
         old = (getattr(rs, "SSLIB_AVAILABLE", False), getattr(rs, "gpg_funcs", None))
-        rs.SSLIB_AVAILABLE, rs.gpg_funcs = True, g
+        rs.SSLIB_AVAILABLE, rs.gpg_funcs = True, flaky
         try:
             ndocs = 10 if quick else 60
             for i in range(ndocs):
@@ -221,10 +249,10 @@ def check(run):
                 common.write_metadata_to_file({"signatures": {}, "signed": doc}, path)
                 for f in ks:
                     if rr.random() < 0.5:
-                        rs.sign_root_metadata_via_gpg(path, f)
+                        again(rs.sign_root_metadata_via_gpg, path, f)
                     else:
                         md = common.load_metadata_from_file(path)
-                        rs.sign_root_metadata_dict_via_gpg(md, rr.choice([f, f.upper()]) if False else f)
+                        again(rs.sign_root_metadata_dict_via_gpg, md, f)
                         common.write_metadata_to_file(md, path)
                 if i % 2:
                     # the normal root update: edit the signed part of the stored file, then every signer signs AGAIN
@@ -233,10 +261,10 @@ def check(run):
                     common.write_metadata_to_file(md, path)
                     for f in ks:
                         if rr.random() < 0.5:
-                            rs.sign_root_metadata_via_gpg(path, f)
+                            again(rs.sign_root_metadata_via_gpg, path, f)
                         else:
                             md = common.load_metadata_from_file(path)
-                            rs.sign_root_metadata_dict_via_gpg(md, f)
+                            again(rs.sign_root_metadata_dict_via_gpg, md, f)
                             common.write_metadata_to_file(md, path)
                 env = common.load_metadata_from_file(path)
                 run.evaluations += 1
